@@ -78,7 +78,7 @@ m = {
     "engines": [{"name": "lean4-model+correspondence", "path": "/verif/lean", "serves_properties": sorted(CLAIMED),
                  "kind_free_text": "Lean 4 model + theorems (lake), fact extractor (Go, go/parser), Go harness (correspondence + direct oracles), Python orchestrator bin/check"}],
     "checks": checks,
-    "notes": "See DESIGN.md. All twenty properties are claimed (not_applicable is empty). The eight fix commits F1–F8 in /repo are recorded in known_findings.json as ten entries of kind fixed (they suppress nothing); K1 (C20) is the one known finding. EXTRA (DESIGN.md §9.5) is not a property and is deliberately not registered here.",
+    "notes": "See DESIGN.md. All twenty properties are claimed (not_applicable is empty). The eight fix commits F1–F8 in /repo are recorded in known_findings.json as ten entries of kind fixed (they suppress nothing); K1 and K2 (both C20) are the known findings. EXTRA (DESIGN.md §9.5) is not a property and is deliberately not registered here.",
     "not_applicable": [{"property_id": p["id"], "reason": "check not built yet in this revision (planned at proof level, DESIGN.md §4)"} for p in props if p["id"] not in CLAIMED],
 }
 json.dump(m, open(os.path.join(V, "MANIFEST.json"), "w"), indent=1)
